@@ -283,8 +283,8 @@ func (c14) Gen(r *Rng, tier string, emit func(string, Tok)) {
 		loop, _ := c14RefLoop(ds, true)
 		emit("loop-4095", c14ParseCase(loop, 0, L(), false))
 	}
-	// 9. local time offset: the date/time words (the stub of Model/Dvb.v is exact rational arithmetic; the float
-	//    formula of dvb.go must agree with it on every MJD word) and every value of the BCD bytes
+	// 9. local time offset: the date/time words through Model/Dvb.v (every MJD word in the thorough tier) and every
+	//    value of the BCD bytes
 	step := 131
 	if tier == "thorough" {
 		step = 1
